@@ -30,6 +30,10 @@ def _try(src):
 def build_seed(cpu):
     ls = corpus.lines(cpu)
     if not ls:
+        # no corpus lines for this CPU: instruction texts as its decoder renders them
+        from checks import C06
+        ls = [t.split(";")[0].strip() for t in C06.decoder_templates(cpus.cpu(cpu)["index"], 60) if re.match(r"^[A-Za-z]", t)]
+    if not ls:
         return None
     picked, seen = [], set()
     step = max(1, len(ls) // 12)
@@ -122,6 +126,9 @@ def _corruptions(lines, files, first_line):
                 # delete / duplicate token
                 yield ("delete-token@%d.%d" % (i, k), False, lines[:i] + ["".join(toks[:k] + toks[k + 1:])] + lines[i + 1:], files)
             yield ("append-operand@%d" % i, False, lines[:i] + [l + ", 1"] + lines[i + 1:], files)
+            if not is_dir and ";" not in l and "//" not in l and "/*" not in l and '"' not in l and "'" not in l:
+                # an unknown word after a complete instruction (PDP-8 style operate groups parse such words one by one)
+                yield ("append-word@%d" % i, False, lines[:i] + [l + " zzqqx"] + lines[i + 1:], files)
         # openers without closer
         plain = not (";" in l or "//" in l or "/*" in l or is_dir and stripped[1:].startswith(("define", "macro", "equ", "include")) or " equ " in l)
         for name, text, must in (("open-quote", l + ' "abc', plain), ("open-comment", l + " /* never closed", plain),
@@ -218,9 +225,12 @@ def run(ctx):
     asm.tools("rel")
     q = ctx.quick()
     seeds = []
-    res = R.pmap(_seed_work, corpus.cpus_with_corpus(), chunk=1)
+    from engine import cells
+    cells.probe_path("rec_zero")
+    allcpus = [c["name"] for c in cpus.cpu_list()]
+    res = R.pmap(_seed_work, allcpus, chunk=1)
     unseeded = []
-    for cpu, s in zip(corpus.cpus_with_corpus(), res):
+    for cpu, s in zip(allcpus, res):
         if s and s[0] == "harness":
             raise RuntimeError(s[1])
         if s:
